@@ -95,6 +95,7 @@ type ModelResult struct {
 }
 
 type modelRun struct {
+	offset     int
 	branchEval map[string]int // branch id -> evaluations so far
 	execCount  map[string]int // node path -> executions so far
 	res        *ModelResult
@@ -103,8 +104,11 @@ type modelRun struct {
 }
 
 // RunModel evaluates the plan on an input. Branch scripts are consumed in evaluation order.
-func RunModel(p *Plan, in M) *ModelResult {
-	mr := &modelRun{branchEval: map[string]int{}, execCount: map[string]int{}, res: &ModelResult{StateN: map[string]int{}, SubInputs: map[string][]M{}}}
+func RunModel(p *Plan, in M) *ModelResult { return RunModelOffset(p, in, 0) }
+
+// RunModelOffset evaluates the plan with every branch script shifted by offset entries.
+func RunModelOffset(p *Plan, in M, offset int) *ModelResult {
+	mr := &modelRun{offset: offset, branchEval: map[string]int{}, execCount: map[string]int{}, res: &ModelResult{StateN: map[string]int{}, SubInputs: map[string][]M{}}}
 	out, err := mr.run(p, "", "", in)
 	mr.res.Out, mr.res.Err = out, err
 	return mr.res
@@ -155,7 +159,7 @@ func (mr *modelRun) selected(p *Plan, path string, b *Branch, idx int) []string 
 	id := branchID(path, b.From, idx)
 	k := mr.branchEval[id]
 	mr.branchEval[id] = k + 1
-	return b.Script[k%len(b.Script)]
+	return b.Script[(k+mr.offset)%len(b.Script)]
 }
 
 // execNode models one node execution: pre-handler, body, post-handler.
